@@ -98,6 +98,48 @@ theorem recvAuth_async {s0 : St} {c seq ph : Nat} {d : RecvData} (h : (recvAuth 
         · simp only [hp] at h ⊢
           exact recvDelay_async h
 
+theorem recvForward_not_async (s0 : St) (c seq ph : Nat) (d : RecvData) (k : Nat) : (recvForward s0 c seq ph d k).2 ≠ .async := by
+  unfold recvForward
+  split
+  · split <;> simp [recvFail]
+  · simp [recvFail]
+
+/-- an immediate success comes from the pass-through path: the packet store is untouched -/
+theorem recvAuth_ackOk_packets {s0 s1 : St} {c seq ph : Nat} {d : RecvData} (h : recvAuth s0 c seq ph d = (s1, .ackOk)) :
+    s1.packets = s0.packets := by
+  unfold recvAuth at h
+  split at h
+  · simp [recvFail] at h
+  · split at h
+    · simp [recvFail] at h
+    · split at h
+      · simp [recvFail] at h
+      · split at h
+        · unfold recvPass at h
+          split at h
+          · simp [recvFail] at h
+          · rename_i sx hi
+            simp only [Prod.mk.injEq, and_true] at h
+            subst h
+            exact (frame_icsRecv hi).packets
+        · unfold recvDelay at h
+          split at h
+          · simp [recvFail] at h
+          · split at h <;> simp [recvFail] at h
+
+theorem recvForward_packets (s0 : St) (c seq ph : Nat) (d : RecvData) (k : Nat) :
+    (recvForward s0 c seq ph d k).1.packets = s0.packets := by
+  unfold recvForward
+  split
+  · rename_i s1 hr
+    split
+    · rename_i s2 hs
+      show s2.packets = s0.packets
+      rw [(frame_sendOpen (sendTransfer_ok hs)).1]
+      exact (recvAuth_ackOk_packets hr : s1.packets = s0.packets)
+    · rfl
+  · rfl
+
 /-- **delayed_only_recorded** — a delayed receive moves no coin, writes no acknowledgement and
     releases nothing: the packet is only recorded. -/
 theorem delayed_only_recorded (s : St) (c seq ph : Nat) (d : RecvData)
@@ -112,7 +154,9 @@ theorem delayed_only_recorded (s : St) (c seq ph : Nat) (d : RecvData)
     · rw [if_pos hc] at h
       exact absurd h (by simp)
     · rw [if_neg hc] at h ⊢
-      exact recvAuth_async h
+      split at h
+      · exact absurd h (recvForward_not_async _ _ _ _ _ _)
+      · exact recvAuth_async h
 
 /-- a rejected message leaves the whole state untouched -/
 theorem rejected_unchanged (s : St) (o : Op) (e : Err) (h : (step s o).2 = .err e) : (step s o).1 = s := by
@@ -177,6 +221,8 @@ theorem non_rollapp_never_delayed_recv (s : St) (c seq ph : Nat) (d : RecvData)
   unfold recvOpen
   split
   · exact ⟨by simp, rfl⟩
+  split
+  · exact ⟨recvForward_not_async _ _ _ _ _ _, recvForward_packets _ _ _ _ _ _⟩
   · unfold recvAuth
     have hc' : chanRollapp { s with receipts := s.receipts ++ [(c, seq)] } c = .ok none := by
       rw [chanRollapp_congr c rfl rfl]; exact hc
@@ -570,6 +616,8 @@ example : ∀ o ∈ cexOps, BoundedOp o := by
 example : CfgOk cexInit where
   raSep := by decide
   chSep := by decide
+  raNe := by decide
+  chNe := by decide
   canon := by
     intro i j rid hi hj
     have one : ∀ k rid, chanRollapp cexInit k = .ok (some rid) → k = 0 := by
